@@ -324,3 +324,134 @@ theorem tie_scenario_obstacle_by_id (s : Scn) (i : Nat) : Gen.Scenario_obstacle_
   simp only [← find?_isSome_eq_any]
   cases h1 : s.st.find? (fun x => x.1 == i) <;> cases h2 : s.dy.find? (fun x => x.1 == i) <;>
     cases h3 : s.ph.find? (fun x => x.1 == i) <;> cases h4 : s.en.find? (fun x => x.1 == i) <;> simp
+
+/-! #### `Scenario.obstacles_by_position_intervals` (four role passes, each a filtered loop) -/
+
+theorem foldl_congr_mem {α β : Type} (f g : β → α → β) (l : List α) (h : ∀ b, ∀ a ∈ l, f b a = g b a) (b : β) :
+    l.foldl f b = l.foldl g b := by
+  induction l generalizing b with
+  | nil => rfl
+  | cons a as ih =>
+    simp only [List.foldl_cons]
+    rw [h b a (by simp)]
+    exact ih (fun b a ha => h b a (by simp [ha])) _
+
+theorem filter_filter_map_eq_filterMap {α β : Type} (q p : α → Bool) (f : α → β) (l : List α) :
+    ((l.filter q).filter p).map f = l.filterMap (fun x => if q x && p x then some (f x) else none) := by
+  induction l with
+  | nil => rfl
+  | cons a as ih =>
+    cases hq : q a <;> cases hp : p a <;>
+      simp only [List.filter_cons, List.filterMap_cons, hq, hp, ih, if_true, Bool.false_eq_true, if_false, List.map_cons,
+        Bool.and_self, Bool.and_false, Bool.and_true]
+
+theorem filterMap_congr_mem {α β : Type} (f g : α → Option β) (l : List α) (h : ∀ x ∈ l, f x = g x) :
+    l.filterMap f = l.filterMap g := by
+  induction l with
+  | nil => rfl
+  | cons a as ih =>
+    simp only [List.filterMap_cons, h a (by simp)]
+    rw [ih (fun x hx => h x (by simp [hx]))]
+
+/-- one role pass as the translator renders it (`if ROLE in obstacle_role: for obstacle in self.<role list>: <body>`), for any
+    loop body that appends the obstacle exactly when `P` holds, is the model's `posPass` of that role appended to what was
+    collected before -/
+theorem pass_eq (obs : List (Nat × Obst)) (ctr : Nat → Option (Rat × Rat)) (ix iy : CR.Iv.I) (roles : List Role) (t : Int)
+    (r : Role) (P : Nat × Obst → Bool) (body : List (Nat × Obst) → Nat × Obst → List (Nat × Obst)) (acc : List (Nat × Obst))
+    (hbody : ∀ acc o, o ∈ obs → o.2.role = r → body acc o = if P o then acc ++ [o] else acc)
+    (hP : ∀ o, o ∈ obs → o.2.role = r →
+      P o = (decide ((r = .dynamic ∨ r = .phantom) → (occupancyAt o.2 t).isSome) && centreIn ix iy (ctr o.1))) :
+    (if decide (r ∈ roles) then (obs.filter (fun o => decide (o.2.role = r))).foldl body acc else acc).map (·.1)
+      = acc.map (·.1) ++ posPass obs ctr ix iy roles t r := by
+  by_cases hr : r ∈ roles
+  · simp only [hr, decide_true, if_true, posPass]
+    rw [foldl_congr_mem body (fun acc o => if P o then acc ++ [o] else acc) _
+          (fun b a ha => hbody b a (List.mem_filter.1 ha).1 (by simpa using (List.mem_filter.1 ha).2)),
+        foldl_append_filter P (fun o => o)]
+    simp only [List.map_append, List.map_id']
+    congr 1
+    rw [filter_filter_map_eq_filterMap]
+    apply filterMap_congr_mem
+    intro x hx
+    by_cases hrole : x.2.role = r
+    · rw [hP x hx hrole]
+      simp only [Bool.and_eq_true, decide_eq_true_eq]
+    · simp [hrole]
+  · simp [hr, posPass]
+
+/-- `Scenario.obstacles_by_position_intervals([ix, iy], roles, t)` of the current source lists exactly the ids of the model's
+    `byPosition`, in the same order: four passes (dynamic, phantom, static, environment — each only when its role was asked
+    for), dynamic and phantom obstacles need an occupancy at `t`, a shape without `center` is listed unconditionally,
+    otherwise the centre must lie in both closed intervals (`Interval.contains` as translated in Gen.Src).  Static obstacles
+    always offer a centre (their initial position). -/
+theorem tie_scenario_by_position (obs : List (Nat × Obst)) (ctr : Nat → Option (Rat × Rat)) (ix iy : CR.Iv.I)
+    (roles : List Role) (t : Int) (hst : ∀ x ∈ obs, x.2.role = .static → (ctr x.1).isSome) :
+    (Gen.Scenario_obstacles_by_position_intervals obs ctr ix iy roles t).map (·.1) = byPosition obs ctr ix iy roles t := by
+  unfold Gen.Scenario_obstacles_by_position_intervals byPosition
+  simp only [Id.run, pure]
+  rw [pass_eq obs ctr ix iy roles t .environment (fun o => centreIn ix iy (ctr o.1)),
+      pass_eq obs ctr ix iy roles t .static (fun o => centreIn ix iy (ctr o.1)),
+      pass_eq obs ctr ix iy roles t .phantom (fun o => (occupancyAt o.2 t).isSome && centreIn ix iy (ctr o.1)),
+      pass_eq obs ctr ix iy roles t .dynamic (fun o => (occupancyAt o.2 t).isSome && centreIn ix iy (ctr o.1))]
+  · simp
+  case hP => intro o ho hr; simp
+  case hP => intro o ho hr; simp
+  case hP => intro o ho hr; simp
+  case hP => intro o ho hr; simp
+  all_goals (intro acc o ho hr)
+  all_goals (cases hc : ctr o.1 <;> cases hocc : occupancyAt o.2 t <;>
+    first
+    | (simp [centreIn, hc, hocc, Gen.Interval_contains_num, CR.Iv.contains, Id.run, pure]; done)
+    | (have h := hst o ho hr; simp [hc] at h))
+
+end CR.Occ
+
+/-! ### placement geometry: `rotate_translate_local` of the four shape classes (geometry/shape.py) = CRModel/Place.lean -/
+namespace CR.Place
+open CR.Rigid CR.Iv CR.PyC04
+
+/-- `Rectangle.rotate_translate_local`: centre moved by the translation, orientation wrapped into [-τ, τ]; no assertion. -/
+theorem tie_rect_place (τ l w : Rat) (ctr : Pt) (θ : Rat) (t : Pt) (a c s : Rat) :
+    Gen.Rectangle_rotate_translate_local τ l w ctr θ t a = place c s a τ t (.rect l w ctr θ) := by
+  simp [Gen.Rectangle_rotate_translate_local, place, Id.run, pure]
+
+/-- `Circle.rotate_translate_local`: centre moved by the translation; the angle is not looked at. -/
+theorem tie_circ_place (τ r : Rat) (ctr t : Pt) (a c s : Rat) :
+    Gen.Circle_rotate_translate_local r ctr t a = .ok (place c s a τ t (.circ r ctr)) := by
+  simp [Gen.Circle_rotate_translate_local, place, CR.Py.assert, bind, Except.bind, pure, Except.pure]
+
+theorem about_zero_add (c s : Rat) (g t p : Pt) : Pt.add (about c s g ⟨0, 0⟩ p) t = about c s g t p := by
+  simp [about, Pt.add, Rat.add_zero]
+
+/-- `Polygon.rotate_translate_local`: every vertex rotated about the polygon's AREA CENTROID (shapely `origin="centroid"`, angle
+    in radians), then moved by the translation; AssertionError for an angle outside [-τ, τ]. -/
+theorem tie_poly_place (τ : Rat) (cosf sinf : Rat → Rat) (vs : List Pt) (t : Pt) (a : Rat) :
+    Gen.Polygon_rotate_translate_local τ cosf sinf vs t a = placeChk (cosf a) (sinf a) a τ t (.poly vs) := by
+  unfold Gen.Polygon_rotate_translate_local placeChk
+  by_cases h : validOrientation τ a = true
+  · simp [h, CR.Py.assert, bind, Except.bind, pure, Except.pure, place, shapelyRotate, addAll, List.map_map,
+      Function.comp_def, about_zero_add]
+  · simp [h, CR.Py.assert, bind, Except.bind]
+
+theorem placeList_eq_map (c s a τ : Rat) (t : Pt) : ∀ ss : List Shape, place.placeList c s a τ t ss = ss.map (place c s a τ t)
+  | [] => rfl
+  | x :: xs => by simp [place.placeList, placeList_eq_map c s a τ t xs]
+
+/-- `ShapeGroup.rotate_translate_local`: every member placed by ITS OWN `rotate_translate_local` with the same translation and
+    angle, in order; AssertionError for an angle outside [-τ, τ]. -/
+theorem tie_group_place (τ : Rat) (cosf sinf : Rat → Rat) (ss : List Shape) (t : Pt) (a : Rat) :
+    Gen.ShapeGroup_rotate_translate_local τ cosf sinf ss t a = placeChk (cosf a) (sinf a) a τ t (.group ss) := by
+  unfold Gen.ShapeGroup_rotate_translate_local placeChk
+  by_cases h : validOrientation τ a = true
+  · simp only [h, CR.Py.assert, if_true, bind, Except.bind, pure, Except.pure]
+    rw [CR.Occ.foldl_append_all]
+    simp [place, placeList_eq_map]
+  · simp [h, CR.Py.assert, bind, Except.bind]
+
+/-- for an admissible orientation (within [-τ, τ], what `is_valid_orientation` demands of every angle) the checked placement is
+    the placement the P04 theorems are about, for every shape kind -/
+theorem placeChk_valid (c s a τ : Rat) (t : Pt) (sh : Shape) (h : validOrientation τ a = true) :
+    placeChk c s a τ t sh = .ok (place c s a τ t sh) := by
+  cases sh <;> simp [placeChk, h]
+
+end CR.Place
